@@ -586,7 +586,7 @@ func TestVerifC14(t *testing.T) {
 	rapid.Check(t, func(rt *rapid.T) {
 		c := genC14(rt)
 		v, nt, inc := runC14(c)
-		if inc {
+		if inc || (v != nil && vFlapsSinceMark() > 0) {
 			col.Inconclusive()
 			return
 		}
